@@ -565,6 +565,8 @@ class Fn:
             return [f"pure (Ctl.next {self.tuple_term(tail['carried'])})"]
         if k == "join":
             return [f"pure {self.tuple_term(tail['vars'])}"]
+        if k == "flow":
+            return [f"pure (Sum.inr {self.tuple_term(tail['vars'])})"]
         raise AssertionError(k)
 
     def tuple_term(self, names):
@@ -714,11 +716,17 @@ class Fn:
                 L.append(self.raise_stmt(s, env, L))
                 return L, False
             if isinstance(s, ast.Break):
+                if tail["kind"] == "flow":
+                    L.append(f"pure (Sum.inl (Ctl.brk {self.tuple_term(tail['carried'])}))")
+                    return L, False
                 if tail["kind"] != "loop":
                     raise Unsupported(f"{self.fs.qual}: break outside a translated loop")
                 L.append(f"pure (Ctl.brk {self.tuple_term(tail['carried'])})")
                 return L, False
             if isinstance(s, ast.Continue):
+                if tail["kind"] == "flow":
+                    L.append(f"pure (Sum.inl (Ctl.next {self.tuple_term(tail['carried'])}))")
+                    return L, False
                 if tail["kind"] != "loop":
                     raise Unsupported(f"{self.fs.qual}: continue outside a translated loop")
                 L.append(f"pure (Ctl.next {self.tuple_term(tail['carried'])})")
@@ -769,6 +777,41 @@ class Fn:
                     L.append("  ))")
                     i += 1
                     continue
+                if tail["kind"] in ("loop", "flow") and rest and not self.has_return(s.body) and not self.has_return(s.orelse) \
+                        and not (t_then or t_else):
+                    # break / continue inside the branches, and statements after the if: the branches answer either "leave the
+                    # round like this" or "go on with these names", so that what follows the if is written once
+                    av = [v for v in self.assigned(s.body + s.orelse)]
+                    vars_ = []
+                    for v in av:
+                        both = v in self.assigned(s.body) and v in self.assigned(s.orelse)
+                        if v in env or both:
+                            vars_.append(v)
+                        elif v in self.loaded(rest) or v in self.loaded(rest_after):
+                            raise Unsupported(f"{self.fs.qual}: {v} may be unbound after the if at line {s.lineno}")
+                    carried = tail["carried"]
+                    e1, e2 = dict(env), dict(env)
+                    ft = {"kind": "flow", "vars": vars_, "carried": carried}
+                    l1, _ = self.block(s.body, e1, ft, [])
+                    l2, _ = self.block(s.orelse, e2, ft, [])
+                    for v in vars_:
+                        if e1.get(v) != e2.get(v):
+                            raise Unsupported(f"{self.fs.qual}: {v} has different types in the branches of the if at line {s.lineno}")
+                        env[v] = e1.get(v)
+                    fl = self.tr.fresh("fl")
+                    L.append(f"let {fl} ← (")
+                    L.append(f"  if {c} then (do")
+                    L.extend("    " + x for x in l1)
+                    L.append("  ) else (do")
+                    L.extend("    " + x for x in l2)
+                    L.append("  ))")
+                    L.append(f"match {fl} with")
+                    L.append("| .inl ctl_ =>")
+                    L.append("  pure (Sum.inl ctl_)" if tail["kind"] == "flow" else "  pure ctl_")
+                    L.append(f"| .inr {self.tuple_pat(vars_)} =>")
+                    lr, _ = self.block(list(rest), env, tail, rest_after)
+                    L.extend("  " + x for x in lr)
+                    return L, False
                 # jump mode: the rest of the block continues inside the branches that fall through
                 e1, e2 = dict(env), dict(env)
                 l1, ft1 = self.block(s.body + ([] if t_then else rest), e1, tail, rest_after)
@@ -794,6 +837,19 @@ class Fn:
                 done = self.try_stmt(s, env, L, tail, rest, rest_after)
                 if done:
                     return L, False
+                i += 1
+                continue
+            if isinstance(s, ast.With) and len(s.items) == 1 and s.items[0].optional_vars is None and isinstance(s.items[0].context_expr, ast.Call) \
+                    and ast.unparse(s.items[0].context_expr.func) == "contextlib.suppress" and self.monad == "M":
+                classes = [a.id for a in s.items[0].context_expr.args if isinstance(a, ast.Name)]
+                if len(classes) != len(s.items[0].context_expr.args) or self.has_jump(s.body):
+                    raise Unsupported(f"{self.fs.qual}: with contextlib.suppress(...) shape")
+                if any(v in self.loaded(rest) or v in self.loaded(rest_after) for v in self.assigned(s.body) if v not in env):
+                    raise Unsupported(f"{self.fs.qual}: name bound under contextlib.suppress and used later")
+                lb, _ = self.block(s.body, dict(env), {"kind": "join", "vars": []}, [])
+                L.append("PyM.tryCatch (do")
+                L.extend("    " + x for x in lb)
+                L.append("  ) [" + ", ".join(f'"{c}"' for c in classes) + "] (pure ())")
                 i += 1
                 continue
             raise Unsupported(f"{self.fs.qual}: statement {type(s).__name__} at line {s.lineno}")
@@ -984,6 +1040,31 @@ class Fn:
             if m == "clear" and not v.args:
                 L.append(f"let {ident(name)} : List UInt8 := []")
                 return
+        if isinstance(v, ast.Call) and isinstance(v.func, ast.Attribute) and isinstance(v.func.value, ast.Attribute) \
+                and isinstance(v.func.value.value, ast.Name) and v.func.value.value.id == "self" and self.is_state_method:
+            st = self.tr.spec.state
+            fa = v.func.value.attr
+            if fa in st.fields and st.fields[fa][1] == BYTES:
+                fld = st.fields[fa][0]
+                m = v.func.attr
+                if m == "extend" and len(v.args) == 1:
+                    a, at = self.ex(v.args[0], env, L)
+                    if at != BYTES:
+                        raise Unsupported(f"{self.fs.qual}: extend with {at}")
+                    L.append(f"PyM.modify fun s => {{ s with {fld} := s.{fld} ++ {a} }}")
+                    return
+                if m == "clear" and not v.args:
+                    L.append(f"PyM.modify fun s => {{ s with {fld} := [] }}")
+                    return
+                if m == "pop" and len(v.args) == 1:
+                    a, at = self.ex(v.args[0], env, L)
+                    a = self.coerce(a, at, NAT)
+                    s_ = self.tr.fresh("s")
+                    b_ = self.tr.fresh("b")
+                    L.append(f"let {s_} ← PyM.get")
+                    L.append(f"let {b_} ← PyM.lift (popAt {s_}.{fld} {paren(a)})")
+                    L.append(f"PyM.modify fun s => {{ s with {fld} := {b_} }}")
+                    return
         term, ty = self.ex(v, env, L, stmt=True)
         if term not in ("()", "") and ty != UNIT:
             L.append(f"let _ := {term}")
@@ -1066,10 +1147,129 @@ class Fn:
         L.extend("  " + x for x in l2)
 
     def while_stmt(self, s, env, L, tail, rest, rest_after):
-        raise Unsupported(f"{self.fs.qual}: while loop")
+        """`while cond:` -> whileM with fuel (FnSpec.fuel, a Lean term over the parameters and the state `s0` at loop entry)"""
+        if self.monad != "M":
+            raise Unsupported(f"{self.fs.qual}: while loop in a pure function")
+        if s.orelse:
+            raise Unsupported(f"{self.fs.qual}: while-else")
+        if not self.fs.fuel:
+            raise Unsupported(f"{self.fs.qual}: while loop without a fuel expression in the translation spec")
+        if self.has_return(s.body):
+            raise Unsupported(f"{self.fs.qual}: return inside a while loop")
+        carried = self.loop_common(s, env, rest, rest_after, s.body)
+        self.nloops += 1
+        lname = f"{self.name}.loop{self.nloops}"
+        benv = dict(env)
+        BL = []
+        c = self.cond(s.test, benv, BL)
+        body_l, _ = self.block(s.body, benv, {"kind": "loop", "carried": carried}, [])
+        captured = [v for v in env if v not in carried and (v in self.loaded(s.body) or v in self.loaded([ast.Expr(s.test)]))]
+        cap_params = "".join(f" ({ident(v)} : {lean_ty(env[v])})" for v in captured)
+        sig_t = self.tuple_ty(carried, env)
+        text = [f"/-- one round of the `while` loop at line {s.lineno} of `{self.fs.qual}`: the test, then the body -/",
+                f"def {lname}{cap_params} (st : {sig_t}) : {self.mty(f'Ctl ({sig_t}) Empty')} := do"]
+        if carried:
+            text.append(f"  let {self.tuple_pat(carried)} := st")
+        text.extend("  " + x for x in BL)
+        text.append(f"  if !{paren(c)} then pure (Ctl.brk {self.tuple_term(carried)}) else do")
+        text.extend("    " + x for x in body_l)
+        self.loops.append("\n".join(text) + "\n")
+        cap_args = "".join(f" {ident(v)}" for v in captured)
+        s0 = self.tr.fresh("s")
+        L.append(f"let {s0} ← PyM.get")
+        fuel = self.fs.fuel.replace("{s}", s0)
+        L.append(f"let ({self.tuple_pat(carried)}, _) := LoopRes.noRet (← whileM ({lname}{cap_args}) ({fuel}) {self.tuple_term(carried)})")
 
     def try_stmt(self, s, env, L, tail, rest, rest_after):
-        raise Unsupported(f"{self.fs.qual}: try statement")
+        """two shapes: (A) `try: x, y = next(<generator>)  except StopIteration: <block>`; (B) try/except[/else] whose handler does
+        not read names bound in the try body.  Returns True when the rest of the enclosing block has been consumed."""
+        if s.finalbody:
+            raise Unsupported(f"{self.fs.qual}: try/finally")
+        if self.monad != "M":
+            raise Unsupported(f"{self.fs.qual}: try in a pure function")
+        # ---- shape A
+        if len(s.body) == 1 and isinstance(s.body[0], ast.Assign) and isinstance(s.body[0].value, ast.Call) \
+                and isinstance(s.body[0].value.func, ast.Name) and s.body[0].value.func.id == "next" \
+                and len(s.handlers) == 1 and isinstance(s.handlers[0].type, ast.Name) and s.handlers[0].type.id == "StopIteration" \
+                and not s.orelse:
+            call = s.body[0].value
+            if len(call.args) != 1 or not isinstance(call.args[0], ast.GeneratorExp):
+                raise Unsupported(f"{self.fs.qual}: next() of something other than a generator expression")
+            g = call.args[0]
+            gen = g.generators[0]
+            ok = (len(g.generators) == 1 and not gen.is_async and len(gen.ifs) == 1 and isinstance(gen.iter, ast.Call)
+                  and isinstance(gen.iter.func, ast.Name) and gen.iter.func.id == "enumerate" and len(gen.iter.args) == 1
+                  and isinstance(gen.target, ast.Tuple) and len(gen.target.elts) == 2 and all(isinstance(e, ast.Name) for e in gen.target.elts)
+                  and isinstance(g.elt, ast.Tuple) and [ast.unparse(e) for e in g.elt.elts] == [e.id for e in gen.target.elts])
+            if not ok:
+                raise Unsupported(f"{self.fs.qual}: generator shape {ast.unparse(g)[:80]}")
+            buf, bt = self.ex(gen.iter.args[0], env, L)
+            if bt != BYTES:
+                raise Unsupported(f"{self.fs.qual}: enumerate over {bt}")
+            iname, bname = gen.target.elts[0].id, gen.target.elts[1].id
+            e2 = dict(env)
+            e2[iname] = NAT
+            e2[bname] = NAT
+            sub = []
+            pred = self.cond(gen.ifs[0], e2, sub)
+            if sub:
+                raise Unsupported(f"{self.fs.qual}: generator condition that can raise")
+            tmp = self.tr.fresh("n")
+            L.append(f"match firstIdx (fun {ident(bname)} => {pred}) {paren(buf)} 0 with")
+            L.append("| none =>")
+            eh = dict(env)
+            lh, _ = self.block(list(s.handlers[0].body) + ([] if self.terminates(s.handlers[0].body) else list(rest)), eh, tail, rest_after)
+            L.extend("  " + x for x in lh)
+            L.append(f"| some {tmp} =>")
+            es = dict(env)
+            LS = []
+            self.bind_target(s.body[0].targets[0], tmp, tup(NAT, NAT), es, LS)
+            ls, _ = self.block(list(rest), es, tail, rest_after)
+            L.extend("  " + x for x in LS + ls)
+            return True
+        # ---- shape B
+        bound = self.assigned(s.body)
+        for h in s.handlers:
+            if any(v in self.loaded(h.body) for v in bound if v not in env):
+                raise Unsupported(f"{self.fs.qual}: except handler reads a name bound in the try body")
+        classes = []
+        for h in s.handlers:
+            if h.name:
+                raise Unsupported(f"{self.fs.qual}: `except ... as name`")
+            if h.type is None or (isinstance(h.type, ast.Name) and h.type.id == "Exception"):
+                classes = None
+            elif isinstance(h.type, ast.Name) and classes is not None:
+                classes.append(h.type.id)
+            else:
+                raise Unsupported(f"{self.fs.qual}: except clause {ast.unparse(h.type)[:40]}")
+        if len(s.handlers) != 1:
+            raise Unsupported(f"{self.fs.qual}: several except clauses")
+        # the try body yields the names it binds (those used later); control transfers inside it are not supported
+        if self.has_jump(s.body):
+            raise Unsupported(f"{self.fs.qual}: return/break/continue inside a try body")
+        later = self.loaded(s.orelse) | self.loaded(rest) | self.loaded(rest_after)
+        vars_ = [v for v in bound if v in later or v in env]
+        eb = dict(env)
+        lb, _ = self.block(s.body, eb, {"kind": "join", "vars": vars_}, [])
+        r = self.tr.fresh("r")
+        L.append(f"let {r} ← PyM.attempt (do")
+        L.extend("    " + x for x in lb)
+        L.append("  )")
+        L.append(f"match {r} with")
+        L.append(f"| .ok {self.tuple_pat(vars_)} =>")
+        eo = dict(env)
+        for v in vars_:
+            eo[v] = eb[v]
+        lo, _ = self.block(list(s.orelse) + list(rest), eo, tail, rest_after)
+        L.extend("  " + x for x in lo)
+        L.append("| .error e_ =>")
+        eh = dict(env)
+        lh, _ = self.block(list(s.handlers[0].body) + ([] if self.terminates(s.handlers[0].body) else list(rest)), eh, tail, rest_after)
+        cls_term = "[]" if classes is None else "[" + ", ".join(f'"{c}"' for c in classes) + "]"
+        L.append(f"  if PyErr.caughtBy e_ {cls_term} then do")
+        L.extend("    " + x for x in lh)
+        L.append("  else PyM.throw e_")
+        return True
 
     def iter_source(self, node, env, L):
         """(Lean list term, element type)"""
@@ -1533,6 +1733,14 @@ class Fn:
                 tmp = tr.fresh("b")
                 L.append(f"let {tmp} ← {self.lift(f'{u}.to_bytes {paren(b)}')}")
                 return tmp, BYTES
+            if bt == BYTES and m == "partition" and len(node.args) == 1:
+                a = node.args[0]
+                if isinstance(a, ast.Call) and isinstance(a.func, ast.Name) and a.func.id == "bytes" and len(a.args) == 1 \
+                        and isinstance(a.args[0], ast.List) and len(a.args[0].elts) == 1:
+                    c, ct = self.ex(a.args[0].elts[0], env, L)
+                    if ct == NAT:
+                        return f"(partition1 (UInt8.ofNat {paren(c)}) {paren(b)})", tup(BYTES, BOOL, BYTES)
+                raise Unsupported(f"{self.fs.qual}: partition with {ast.unparse(a)[:40]}")
             vm = tr.spec.value_methods.get((self.ty_key(bt), m))
             if vm is not None:
                 args = [self.ex(a, env, L) for a in node.args]
@@ -1858,6 +2066,7 @@ def ash_spec() -> ModSpec:
         FnSpec("AshProtocol._enter_failed_state", params={"reset_code": opt(NAT)}, ret=UNIT),
         FnSpec("AshProtocol.error_frame_received", params={"frame": F}, ret=UNIT),
         FnSpec("AshProtocol.frame_received", params={"frame": F}, ret=UNIT),
+        FnSpec("AshProtocol.data_received", ret=UNIT, fuel="2 * ({s}.buffer.length + data_.length) + 2"),
         FnSpec("AshProtocol.send_reset", ret=UNIT),
         FnSpec("AshProtocol.close", ret=UNIT),
     ]
